@@ -12,6 +12,8 @@ logging.getLogger("batchie").setLevel(logging.ERROR)     # "Could not create sin
 
 import itertools
 import os
+
+from harness import c01c14_common as G
 import random
 import shutil
 import tempfile
@@ -479,10 +481,14 @@ def api_stream(ctx, res, rng, queue):
         es = ExperimentSpace(treatment_mapping=(np.array(tm[0], dtype=ndt), np.array(tm[1], dtype=float), np.array(tm[2], dtype=int)),
                              sample_mapping=(np.array(sm[0], dtype=ndt), np.array(sm[1], dtype=int)), control_treatment_name=ctrl)
         case = {"kind": "api:" + kind, "ctrl": ctrl, "tmap": tm, "smap": sm, "names_dtype": "object" if ndt is object else "str"}
+        if t % 6 == 0:
+            case["verbose"] = True
+            res.count("class.verbose-logging")
         res.evaluations += 1
         res.count("api." + kind)
         try:
-            api_case(res, case, es, ctrl, tm, sm, produced, queue)
+            with G.vctx(case.get("verbose")):
+                api_case(res, case, es, ctrl, tm, sm, produced, queue)
         except Exception as e:      # noqa: BLE001
             soft(res, "api:raises", case, "%s: %s" % (type(e).__name__, e), "answers")
 
@@ -637,8 +643,12 @@ def combine_stream(ctx, res, rng, queue):
         case = {"kind": kind, "raws": raws, "mode": mode}
         res.evaluations += 1
         res.count("combine.%s.%s" % (kind, mode))
+        if t % 6 == 0:
+            case["verbose"] = True
+            res.count("class.verbose-logging")
         try:
-            combine_case(res, case, raws, queue)
+            with G.vctx(case.get("verbose")):
+                combine_case(res, case, raws, queue)
         except Exception as e:      # noqa: BLE001
             soft(res, "combine:raises", case, "%s: %s" % (type(e).__name__, e), "a result")
 
@@ -673,7 +683,11 @@ def _canon(x):
 def guarded(f, res, case, *a):
     """an exception escaping from Screen(...) / ExperimentSpace on valid input is a violation (no screen is constructed)"""
     try:
-        f(res, case, *a)
+        if case.get("kind") in ("entry-point", "load-nan-inf"):
+            f(res, case, *a)                # these enter the verbose configuration themselves (the CLI also needs --verbose)
+        else:
+            with G.vctx(case.get("verbose")):
+                f(res, case, *a)
     except Exception as e:      # noqa: BLE001
         res.fail("constructing / saving on valid input raises", case, "%s: %s" % (type(e).__name__, e), "a screen", signature="C01:raises:" + case["kind"])
 
@@ -690,7 +704,9 @@ def temporaries_class(ctx, res, rng, queue):
             while len(r["snames"]) != n:
                 r = S.gen_raw(rng, n_max=n, arity=a)
             raws.append(r)
-        case = {"kind": "temporaries", "raws": raws}
+        case = {"kind": "temporaries", "raws": raws, "verbose": t % 3 == 0}
+        if case["verbose"]:
+            res.count("class.verbose-logging")
         res.evaluations += 1
         res.count("class.temporaries")
         guarded(temporaries_case, res, case, raws)
@@ -731,7 +747,9 @@ def instalments_class(ctx, res, rng, tmpdir):
             r["pnames"] = [rng.choice(pool) for _ in r["snames"]]
             r["mask"] = [st[q] for q in r["pnames"]]
             raws.append(r)
-        case = {"kind": "instalments", "raws": raws}
+        case = {"kind": "instalments", "raws": raws, "verbose": t % 4 == 0}
+        if case["verbose"]:
+            res.count("class.verbose-logging")
         res.evaluations += 1
         res.count("class.instalments")
         guarded(instalments_case, res, case, raws, tmpdir)
@@ -816,18 +834,151 @@ def int_width_class(ctx, res, rng, tmpdir, queue):
             keep = sorted(rng.sample(range(len(raw["snames"])), max(1, len(raw["snames"]) - rng.randint(0, 3))))
             for k in ("tnames", "tdoses", "snames", "pnames", "obs"):
                 raw[k] = [raw[k][i] for i in keep]
-        case = {"kind": "int-width", "raw": raw, "variant": "c", "vseed": 0}
+        case = {"kind": "int-width", "raw": raw, "variant": "c", "vseed": 0, "verbose": m == 257}
         res.evaluations += 1
         res.count("class.int-width")
         res.count("class.int-width.%s-%d" % (what, m))
         try:
-            s = S.build(raw)
-            oracle(res, case, raw, s)
-            sp = space_oracle(res, case, raw, s, tmpdir, True)
+            with G.vctx(case.get("verbose")):
+                s = S.build(raw)
+                oracle(res, case, raw, s)
+                sp = space_oracle(res, case, raw, s, tmpdir, True)
             queue("mkscreen " + S.raw_to_tokens(raw), S.show_screen(s), case)
             queue("espace " + S.raw_to_tokens(raw), sp, dict(case, kind="int-width:espace"))
         except Exception as e:      # noqa: BLE001
             res.fail("constructing / saving on valid input raises", case, "%s: %s" % (type(e).__name__, e), "a screen", signature="C01:raises:int-width")
+
+
+
+# ---------------------------------------------------------------- HARDENING_CHECKLIST items 18 (real entry points) and 19 (load paths)
+
+def with_superset(rng, raw):
+    if rng.random() < 0.5:
+        try:
+            tm, sm, _ = superset_with_absent_names(rng, raw)
+            raw["tmap"], raw["smap"] = tm, sm
+        except Exception:       # noqa: BLE001
+            raw["tmap"] = raw["smap"] = None
+    return raw
+
+
+def stored_maps(s):
+    return (map_sig(s.treatment_mapping), smap_sig(s.sample_mapping))
+
+
+def entry_point_case(res, case, tmpdir):
+    """the stages that load / construct screens, through their real `batchie.cli.<stage>.main()`: what the stage loads, hands to the core and
+    writes must satisfy the C01 clauses for the rows that were saved, and carry the saved mapping verbatim"""
+    from batchie.data import Screen
+    raw, stage, verbose = case["raw"], case["stage"], bool(case.get("verbose"))
+    src = os.path.join(tmpdir, "in.h5")
+    inp = S.build(raw)
+    inp.save_h5(src)
+    ref = Screen.load_h5(src)
+    want_maps = stored_maps(inp)
+    mraw = dict(raw, tmap=tuple(list(x) for x in inp.treatment_mapping), smap=tuple(list(x) for x in inp.sample_mapping))
+    cells = [(nm, d) for rn, rd in zip(raw["tnames"], raw["tdoses"]) for nm, d in zip(rn, rd)]
+    if stage == "extract_screen_metadata":
+        out = os.path.join(tmpdir, "meta.json")
+        with G.recording(stage, "Screen") as calls:
+            G.run_main(stage, ["--screen", src, "--output", out], verbose)
+        for _, loaded in calls:
+            oracle(res, case, mraw, loaded)
+        meta = G.read_json(out)
+        want = {"size": len(raw["snames"]), "n_plates": len(set(raw["pnames"])), "n_unique_samples": len(set(raw["snames"])),
+                "n_unique_treatments": len(set(c for c in cells if not (c[0] == raw["ctrl"] or c[1] <= 0)))}
+        got = {k: meta.get(k) for k in want}
+        if got != want:
+            res.fail("extract_screen_metadata: the written counts are not the numbers of rows / distinct plate, sample and non-control treatment ids",
+                     case, got, want, signature="C01:entry-point:extract_screen_metadata")
+    elif stage == "reveal_plate":
+        out = os.path.join(tmpdir, "revealed.h5")
+        G.run_main(stage, ["--screen", src, "--output", out, "--plate-id"] + list(case["plate_ids"]), verbose)
+        t = Screen.load_h5(out)
+        oracle(res, case, mraw, t)
+        if stored_maps(t) != want_maps:
+            res.fail("reveal_plate: the written screen does not carry the mapping of the screen it was given, verbatim", case,
+                     S.show_tmap(t.treatment_mapping)[:300], S.show_tmap(inp.treatment_mapping)[:300], signature="C01:entry-point:reveal_plate:mapping")
+        if np.asarray(t.treatment_ids).tolist() != np.asarray(ref.treatment_ids).tolist() or [int(x) for x in t.sample_ids] != [int(x) for x in ref.sample_ids]:
+            res.fail("reveal_plate: treatment / sample ids of the written screen differ from those of the screen it was given", case,
+                     np.asarray(t.treatment_ids).tolist(), np.asarray(ref.treatment_ids).tolist(), signature="C01:entry-point:reveal_plate:ids")
+    elif stage == "prepare_retrospective_simulation":
+        tr, te = os.path.join(tmpdir, "train.h5"), os.path.join(tmpdir, "test.h5")
+        with G.recording(stage, "mask_screen") as calls:
+            try:
+                G.run_main(stage, ["--data", src, "--training-output", tr, "--test-output", te, "--holdout-fraction", case["fraction"], "--seed", case["seed"]], verbose)
+            except Exception as e:      # noqa: BLE001 -- e.g. no plate left to hold out: the stage's own contract (C11 / C13), not C01's
+                res.count("entry-point.prepare.raised." + type(e).__name__)
+                return
+        worked_on = calls[0][1]["screen"] if calls and "screen" in calls[0][1] else (calls[0][0][0] if calls else None)
+        for nm, path in (("training", tr), ("test", te)):
+            try:
+                t = Screen.load_h5(path)
+            except TypeError:           # zero-row output: known finding of C02 (load_h5 of an empty screen)
+                res.count("entry-point.prepare.empty-output")
+                continue
+            oracle(res, dict(case, output=nm), S.raw_of_screen(t, with_maps=True), t)
+            if worked_on is not None and stored_maps(t) != stored_maps(worked_on):
+                res.fail("prepare_retrospective_simulation: a written screen does not carry the mapping of the screen the stage worked on, verbatim",
+                         dict(case, output=nm), S.show_tmap(t.treatment_mapping)[:300], S.show_tmap(worked_on.treatment_mapping)[:300],
+                         signature="C01:entry-point:prepare:mapping")
+
+
+def entry_points_class(ctx, res, rng, tmpdir):
+    stages = ["extract_screen_metadata", "reveal_plate", "prepare_retrospective_simulation"]
+    for t in range(ctx.scale(9, 90)):
+        stage = stages[t % 3]
+        raw = G.entry_raw(rng, arity=2 if stage == "prepare_retrospective_simulation" else None)
+        if stage != "prepare_retrospective_simulation":
+            raw = with_superset(rng, raw)
+        case = {"kind": "entry-point", "stage": stage, "raw": raw, "verbose": t % 2 == 0}
+        if stage == "reveal_plate":
+            pl = sorted(set(raw["pnames"]))
+            unobs = [i for i, q in enumerate(pl) if not raw["mask"][raw["pnames"].index(q)]]
+            case["plate_ids"] = sorted(set([0] + rng.sample(unobs, rng.randint(1, len(unobs))))) if t % 2 == 0 else rng.sample(unobs, 1)
+        if stage == "prepare_retrospective_simulation":
+            case["fraction"] = rng.choice([0.1, 0.3, 0.5])
+            case["seed"] = rng.choice([0, 0, 1, 7])
+        res.evaluations += 1
+        res.count("class.entry-point." + stage)
+        if case["verbose"]:
+            res.count("class.verbose-logging")
+        guarded(lambda r, c: entry_point_case(r, c, tmpdir), res, case)
+
+
+def load_case(res, case, tmpdir):
+    """item 19, load path: a screen whose observations include NaN / +-inf, rows in no particular order, saved and loaded (the verbose slice
+    under DEBUG logging): the loaded screen satisfies the C01 clauses for the saved rows and carries the saved mapping verbatim"""
+    from batchie.data import Screen
+    raw = case["raw"]
+    path = os.path.join(tmpdir, "nan.h5")
+    inp = S.build(raw)
+    before = rows_sig(inp)
+    inp.save_h5(path)
+    with G.vctx(case.get("verbose")):
+        t = Screen.load_h5(path)
+    mraw = dict(raw, tmap=tuple(list(x) for x in inp.treatment_mapping), smap=tuple(list(x) for x in inp.sample_mapping))
+    oracle(res, case, mraw, t)
+    if stored_maps(t) != stored_maps(inp):
+        res.fail("a loaded screen does not carry the saved mapping verbatim", case, S.show_tmap(t.treatment_mapping)[:300],
+                 S.show_tmap(inp.treatment_mapping)[:300], signature="C01:load:mapping")
+    got = rows_sig(t)
+    if got[:4] != before[:4]:
+        res.fail("names / doses / sample names / plate names of a loaded screen differ from the saved rows", case, [x[:6] for x in got[:4]],
+                 [x[:6] for x in before[:4]], signature="C01:load:rows")
+    if got[4:] != before[4:] or rows_sig(inp) != before:
+        soft(res, "load:observations-rewritten", case, got[4][:12], before[4][:12])      # persistence of observations is C02's
+
+
+def load_class(ctx, res, rng, tmpdir):
+    for t in range(ctx.scale(6, 60)):
+        raw = with_superset(rng, G.entry_raw(rng, nan_obs=True))
+        case = {"kind": "load-nan-inf", "raw": raw, "verbose": t % 2 == 0}
+        res.evaluations += 1
+        res.count("class.load-nan-inf")
+        if case["verbose"]:
+            res.count("class.verbose-logging")
+        guarded(lambda r, c: load_case(r, c, tmpdir), res, case)
 
 
 
@@ -875,14 +1026,23 @@ def run(ctx, res):
             variant = "c" if kind == "exhaustive" else rng.choice(VARIANTS)
             vseed = rng.randrange(1 << 30)
             case = {"kind": kind, "raw": raw, "variant": variant, "vseed": vseed}
+            if t % 7 == 0 or (kind == "exhaustive" and t % 5 == 0):
+                case["verbose"] = True                  # item 19: the slice that runs under DEBUG logging
+                res.count("class.verbose-logging")
             res.evaluations += 1
             res.count("kind." + kind)
             res.count("layout." + variant)
             res.count("arity.%d" % raw["arity"])
             res.count("rows.%s" % ("0" if not raw["snames"] else "1-5" if len(raw["snames"]) <= 5 else "6+"))
             try:
-                s, arrs, before = build_variant(raw, variant, vseed)
-                out = S.show_screen(s)
+                with G.vctx(case.get("verbose")):
+                    s, arrs, before = build_variant(raw, variant, vseed)
+                    out = S.show_screen(s)
+                if case.get("verbose"):
+                    quiet = S.show_screen(build_variant(raw, variant, vseed)[0])
+                    if quiet != out:
+                        res.fail("a screen built under verbose logging differs from the same screen built without (ids / mappings)", case, out[:300], quiet[:300],
+                                 signature="C01:verbose-differs")
             except Exception as e:      # noqa: BLE001
                 out = S.err_tok(e)
                 s = None
@@ -897,7 +1057,8 @@ def run(ctx, res):
                 if any(S.bits(d) == S.bits(-0.0) for row in raw["tdoses"] for d in row):
                     res.count("has-negative-zero-dose")
                 roundtrip = kind != "exhaustive" and (raw.get("tmap") is not None or rng.random() < 0.3)
-                sp = space_oracle(res, case, raw, s, tmpdir, roundtrip)
+                with G.vctx(case.get("verbose")):
+                    sp = space_oracle(res, case, raw, s, tmpdir, roundtrip)
                 if roundtrip:
                     res.count("space.save-load-roundtrip")
                 lines.append("espace " + S.raw_to_tokens(raw))
@@ -938,6 +1099,8 @@ def run(ctx, res):
     try:
         instalments_class(ctx, res, ctx.subrng("c01", "instalments"), tmp2)
         int_width_class(ctx, res, ctx.subrng("c01", "int-width"), tmp2, queue)
+        entry_points_class(ctx, res, ctx.subrng("c01", "entry"), tmp2)
+        load_class(ctx, res, ctx.subrng("c01", "load"), tmp2)
     finally:
         shutil.rmtree(tmp2, ignore_errors=True)
     # malformed stream
@@ -1000,11 +1163,15 @@ def run(ctx, res):
         variant = rng.choice(VARIANTS)
         vseed = rng.randrange(1 << 30)
         case = {"kind": "malformed:" + m, "raw": raw, "variant": variant, "vseed": vseed}
+        if t % 6 == 0:
+            case["verbose"] = True
+            res.count("class.verbose-logging")
         res.evaluations += 1
         res.count("malformed." + m)
         try:
-            s, _arrs, _before = build_variant(raw, variant, vseed)
-            out = S.show_screen(s)
+            with G.vctx(case.get("verbose")):
+                s, _arrs, _before = build_variant(raw, variant, vseed)
+                out = S.show_screen(s)
             accepted = True
         except Exception as e:      # noqa: BLE001
             out = S.err_tok(e)
@@ -1034,6 +1201,18 @@ def run(ctx, res):
 
 
 def replay(ctx, case, res):
+    if case["kind"] in ("entry-point", "load-nan-inf"):
+        tmpdir = tempfile.mkdtemp(prefix="c01_")
+        try:
+            guarded((lambda r, c: entry_point_case(r, c, tmpdir)) if case["kind"] == "entry-point" else (lambda r, c: load_case(r, c, tmpdir)), res, case)
+        finally:
+            shutil.rmtree(tmpdir, ignore_errors=True)
+        return
+    with G.vctx(case.get("verbose")):
+        replay_inner(ctx, case, res)
+
+
+def replay_inner(ctx, case, res):
     if case["kind"].startswith("api:"):
         from batchie.data import ExperimentSpace
         tm, sm = case["tmap"], case["smap"]
